@@ -70,6 +70,13 @@ fn v1_surface<E: Error + PartialResult + std::fmt::Debug + PartialEq>(r: &Result
             n += nested_fmt(h) + nested_fmt(&h.addresses);
             let o = h.to_owned();
             n += o.addresses_str().len() + o.protocol().len();
+            // refreshing owned headers in place (a long and a short destination)
+            let long_text = format!("PROXY UNKNOWN {}\r\n", "z".repeat(90));
+            for dest in [ppp::v1::Header::new("PROXY UNKNOWN\r\n", ppp::v1::Addresses::Unknown).to_owned(), ppp::v1::Header::new(long_text.as_str(), ppp::v1::Addresses::Unknown).to_owned()] {
+                let mut d = dest;
+                d.clone_from(h);
+                n += d.addresses_str().len().min(1);
+            }
             n += (o == *h) as usize + (h.clone() == o) as usize;
             n += sink(h);
             n += h.addresses.to_string().len();
@@ -95,6 +102,10 @@ fn iterate(mut it: TypeLengthValues<'_>, n_bytes: usize) -> (usize, bool, usize)
     // the other ways of consuming the iterator must return normally too: size_hint before and after every item,
     // and collect / count / last on copies (collect trusts size_hint: a wild lower bound aborts the process)
     acc += it.size_hint().0.min(7);
+    // the iterator's own formatter: small sections always, large ones once (after the walk, below)
+    if n_bytes <= 512 {
+        acc += format!("{:?}", it).len().min(1);
+    }
     if n_bytes <= 4096 {
         let v: Vec<_> = it.clone().take(cap + 1).collect();
         acc += v.len().min(3);
@@ -109,6 +120,17 @@ fn iterate(mut it: TypeLengthValues<'_>, n_bytes: usize) -> (usize, bool, usize)
                 acc += t.len() + t.is_empty() as usize;
                 let o = t.to_owned();
                 acc += (o == *t) as usize + sink(&o.kind);
+                // refreshing an owned item in place from this one (longer, shorter and equally long destinations)
+                if items <= 8 || items % 61 == 0 {
+                    for dest_len in [0usize, 9, t.len(), t.len() + 1, 300] {
+                        if dest_len <= 300 || dest_len == t.len() {
+                            let buf = vec![0x5au8; dest_len.min(70_000)];
+                            let mut slot = ppp::v2::TypeLengthValue::new(0xEEu8, &buf[..]).to_owned();
+                            slot.clone_from(t);
+                            acc += slot.len().min(1);
+                        }
+                    }
+                }
                 // the item's own formatter (a value may itself hold TLVs, any number of levels deep)
                 // (the first 8 items of a walk and every 61st after them; of the large ones - a 65535-byte value prints to 300 KB -
                 // the first of each walk)
@@ -128,6 +150,17 @@ fn iterate(mut it: TypeLengthValues<'_>, n_bytes: usize) -> (usize, bool, usize)
         }
         if items > cap {
             return (items, true, acc);
+        }
+        if items == 2 && n_bytes <= 512 {
+            acc += format!("{:?}", it).len().min(1);
+        }
+    }
+    // after the end (for sections of more than 65535 bytes - TypeLengthValues::from takes any slice - the offset is then past
+    // what a 16-bit length accessor reports)
+    if n_bytes <= 512 || n_bytes > 65535 {
+        acc += format!("{:?}", it).len().min(1);
+        if n_bytes <= 512 {
+            acc += format!("{:#?}", it).len().min(1);
         }
     }
     (items, false, acc)
@@ -151,6 +184,20 @@ fn v2_surface(r: &Result<ppp::v2::Header<'_>, ppp::v2::ParseError>) -> Result<us
             n += acc;
             let o = h.to_owned();
             n += (o == *h) as usize + o.tlv_bytes().len() + o.address_bytes().len();
+            {
+                let mut small = crate::oracle::v2::SIG.to_vec();
+                small.extend_from_slice(&[0x20, 0x00, 0, 0]);
+                let mut big = crate::oracle::v2::SIG.to_vec();
+                big.extend_from_slice(&[0x21, 0x31, 0x01, 0x2c]);
+                big.extend(std::iter::repeat(0x51u8).take(300));
+                for src in [&small, &big] {
+                    if let Ok(d) = ppp::v2::Header::try_from(&src[..]) {
+                        let mut d = d.to_owned();
+                        d.clone_from(h);
+                        n += d.len().min(1) + d.tlvs().count().min(1);
+                    }
+                }
+            }
             n += h.to_string().len() + o.to_string().len();
             n += fmt_specs(h) + fmt_specs(&o) + nested_fmt(h);
             n += sink(&h.addresses) + sink(&h.command) + sink(&h.protocol) + sink(&h.version);
